@@ -797,9 +797,46 @@ func (h *c02Harness) runHistory(r *vg.Rand, maxSteps int) {
 				v.Signature = p.Signature
 				h.sendVote(v, "p2", "vote/last-commit")
 			}
-		default: // repeat an earlier odd vote
-			if len(sent) > 0 {
-				sent[r.Intn(len(sent))]()
+		default:
+			if r.Chance(55) { // repeat an earlier odd vote
+				if len(sent) > 0 {
+					sent[r.Intn(len(sent))]()
+				}
+				continue
+			}
+			// Seed C01f: an equivocating validator's second vote is tracked only once a peer has
+			// claimed +2/3 for that block, and lives in the per-block table only.  The same
+			// conflicting vote delivered again and again must count once.
+			o := h.others()
+			idx := o[r.Intn(len(o))]
+			ty := tmproto.PrevoteType
+			if r.Bool() {
+				ty = tmproto.PrecommitType
+			}
+			height, round := cs.Height, cs.Round
+			b1, b2 := h.pickBlockID(r), h.pickBlockID(r)
+			for i := 0; i < 8 && (b2.Equals(b1) || len(b2.Hash) == 0); i++ {
+				b2 = h.pickBlockID(r)
+			}
+			if b2.Equals(b1) || len(b2.Hash) == 0 {
+				continue
+			}
+			h.sendVote(h.mkVote(r, idx, ty, height, round, b1), "p1", "equivocation/first-vote")
+			pn := 2 + r.Intn(3)
+			peer := p2p.ID(fmt.Sprintf("p%d", pn))
+			hh, cb := h, b2
+			t := vg.App("IMaj23", vg.Z(height), vg.Z(int64(round)), vg.N(uint64(ty)), vg.N(uint64(pn)), h.bid(b2))
+			h.deliver(t, fmt.Sprintf("maj23-claim{h %d r %d type %d block %s} from %q", height, round, ty, h.bid(b2), peer), func() {
+				hh.cs.mtx.Lock()
+				ht, votes := hh.cs.Height, hh.cs.Votes
+				hh.cs.mtx.Unlock()
+				if ht == height {
+					votes.SetPeerMaj23(round, ty, peer, cb) //nolint:errcheck
+				}
+			})
+			v2 := h.mkVote(r, idx, ty, height, round, b2)
+			for i, n := 0, 2+r.Intn(3); i < n && !h.panicked && h.cs.Height == height; i++ {
+				h.sendVote(v2, peer, "equivocation/second-vote-redelivered")
 			}
 		}
 	}
@@ -919,7 +956,16 @@ func (h *c02Harness) runLockStory(r *vg.Rand, maxSteps int, script []c02Plan) {
 			if pr, ok := polkaAt[string(e.block.Hash())]; ok && pr < round && (plan.propose != "" || r.Chance(60)) {
 				polr = pr
 			}
-			h.sendProposal(signer, height, round, polr, bidOf(e), false, "story/proposal")
+			pkind := "story/proposal"
+			if cs.LockedBlock != nil && cs.LockedRound >= 0 && cs.LockedRound < round &&
+				!cs.LockedBlock.HashesTo(e.block.Hash()) && r.Chance(30) {
+				// seed C02f: a faulty proposer cites the polka of the node's lock round (or a later
+				// round in which the node holds +2/3 for something else) as the POL of a DIFFERENT
+				// block; the POL is "complete" but not for this block, the lock must hold
+				polr = cs.LockedRound
+				pkind = "story/proposal-foreign-pol"
+			}
+			h.sendProposal(signer, height, round, polr, bidOf(e), false, pkind)
 			for i := 0; i < int(e.parts.Total()) && !h.panicked; i++ {
 				h.sendPart(height, round, e, i, "story/part")
 			}
